@@ -350,6 +350,9 @@ def run_check(factory: Callable[[], Check], argv_opts: dict[str, Any]) -> int:
         per = max(5.0, 60.0 / len(unknown))
         for n, (sig, item) in enumerate(sorted(unknown.items())):
             if n >= 8:
+                print(f"  ... {len(unknown) - 8} further distinct signatures not minimised:")
+                for s2 in sorted(unknown)[8:60]:
+                    print(f"      {s2}")
                 break
             small = minimise(chk, item["plan"], sig, budget_s=per)
             res = chk.run(small)
